@@ -1,3 +1,4 @@
+//@owner time
 // ---- mathematical model of the microsecond storage encoding (C19) ----
 pub open spec fn I64_MIN() -> int { -0x8000_0000_0000_0000 }
 pub open spec fn I64_MAX() -> int { 0x7fff_ffff_ffff_ffff }
